@@ -203,6 +203,57 @@ fn check_threshold(meta: &Value) -> Vec<Value> {
     out
 }
 
+/// Chains declared in configuration files: every appender gets exactly its own filters, also when a
+/// neighbouring appender (with filters of its own) fails to build and is dropped by lossy loading.
+fn check_config_chains() -> Vec<Value> {
+    use crate::reloader::CaptureDeserializer;
+    let mut out = vec![];
+    for round in 0..40usize {
+        let scratch = crate::fsutil::Scratch::new("fan");
+        let sink = Arc::new(Mutex::new(vec![]));
+        let built = Arc::new(AtomicUsize::new(0));
+        let mut d = log4rs::config::Deserializers::default();
+        d.insert("capture", CaptureDeserializer { sink: sink.clone(), built: built.clone() });
+        // names vary so that the map iteration order varies too
+        let (good, bad, filtered) = (format!("g{}", round), format!("b{}", round * 7 % 13), format!("f{}", round * 5 % 11));
+        let doc = json!({
+            "appenders": {
+                good.clone(): {"kind": "capture", "tag": "good"},
+                bad.clone(): {"kind": "no_such_kind", "filters": [{"kind": "threshold", "level": "off"}]},
+                filtered.clone(): {"kind": "capture", "tag": "filtered", "filters": [{"kind": "threshold", "level": "warn"}]},
+            },
+            "root": {"level": "trace", "appenders": [good, filtered]},
+        });
+        let path = scratch.path().join("c.yaml");
+        std::fs::write(&path, serde_yaml::to_string(&doc).unwrap()).unwrap();
+        let cfg = match catch(|| log4rs::config::load_config_file(&path, d)) {
+            Ok(Ok(c)) => c,
+            other => {
+                out.push(json!({"case": -2, "input": doc, "mismatch": {"what": "lossy loading failed or panicked", "detail": format!("{:?}", other.map(|r| r.map(|_| ()).map_err(|e| e.to_string())))}}));
+                continue;
+            }
+        };
+        let logger = log4rs::Logger::new(cfg);
+        for l in 1..=5i64 {
+            sink.lock().unwrap().clear();
+            logger.log(&log::Record::builder().level(level(l)).target("t").args(format_args!("m")).build());
+            let got: Vec<String> = sink.lock().unwrap().iter().map(|(t, _): &(String, usize)| t.clone()).collect();
+            let mut want = vec!["good".to_string()];
+            if l <= 2 {
+                want.push("filtered".to_string());
+            }
+            let mut g = got.clone();
+            g.sort();
+            want.sort();
+            if g != want {
+                out.push(json!({"case": -2, "input": doc, "mismatch": {"what": "deliveries with filters from a configuration file", "level": l, "expected": want, "actual": got}}));
+                break;
+            }
+        }
+    }
+    out
+}
+
 /// `fanout <cases.ndjson> <out.ndjson>`
 pub fn main(args: &[String]) {
     quiet_panics();
@@ -213,6 +264,7 @@ pub fn main(args: &[String]) {
         check_case(c, i).into_iter().map(|m| json!({"case": i, "input": c, "mismatch": m})).collect()
     });
     res.extend(check_threshold(meta));
+    res.extend(check_config_chains());
     write_ndjson(&args[1], &res);
     println!("{}", json!({"cases": cases.len(), "mismatches": res.len(), "threshold_pairs": 30}));
 }
